@@ -806,6 +806,8 @@ func runC03(c *Ctx) {
 	ruleReadFull(c, p, "C03.readfull")
 	ruleRowwise(c, p, "C03.rowwise")
 	ruleVersionPassThrough(c, p, "C03.version-through")
+	ruleLimitSiblings(c, p, "C03.limits")
+	ruleExceptionChain(c, p, "C03.exception-chain")
 	{
 		c.R.Rule("C03.messages", "E2 containment and gate provenance (as C17.shape / C17.gates / C17.fieldorder) for every protocol message: what the server-side encoders of progress, profile, exception, table columns, ... emit at a revision is what the client's decoders consume at that revision")
 		pairs := messagePairs(p)
